@@ -126,6 +126,116 @@ def style_temp_obligations(rep):
 
 
 # --------------------------------------------------------------------------------------------- bounded stand-in on the plotly/generic model
+def frame_index_obligations(rep):
+    """get_rot_pos_from_path (real code object) for a LIST of frame indices, symbolically: a generic requested index i >= 0 and a symbolic path length
+    L >= 1 — the pose taken is the one at min(i, L-1) ("beyond the end of its path an object stays at its last pose"), for every i and L."""
+    import z3
+
+    import magpylib._src.display.traces_utility as TU
+    from engine import solve
+    from engine.symex import Ctx, SymBool, SymInt, Unsupported, explore
+
+    fails = []
+    fn = describe(TU.get_rot_pos_from_path)
+    rep.function(fn)
+    i, L, n = z3.Int("i_requested"), z3.Int("path_len"), z3.Int("n_requested")
+
+    class IArr:
+        """array of requested indices: one generic element"""
+
+        def __init__(self, elem):
+            self.elem = elem
+
+        def __ge__(self, o):
+            return ("mask", self.elem >= (o.t if isinstance(o, SymInt) else o))
+
+        def __lt__(self, o):
+            return ("mask", self.elem < (o.t if isinstance(o, SymInt) else o))
+
+        def __mod__(self, o):
+            return IArr(self.elem % (o.t if isinstance(o, SymInt) else o))
+
+        def __add__(self, o):
+            return IArr(self.elem + (o.t if isinstance(o, SymInt) else o))
+
+        def __setitem__(self, k, v):
+            if not (isinstance(k, tuple) and k[0] == "mask"):
+                raise Unsupported("index assignment pattern")
+            val = v.t if isinstance(v, SymInt) else (v.elem if isinstance(v, IArr) else z3.IntVal(int(v)))
+            self.elem = z3.If(k[1], val, self.elem)
+
+        def __getitem__(self, k):
+            if isinstance(k, tuple) and k[0] == "mask":
+                return IArr(self.elem)
+            raise Unsupported("index pattern")
+
+        @property
+        def size(self):
+            return SymInt(n)
+
+    taken = []
+
+    class Path:
+        def __init__(self, what):
+            self.what = what
+            self.shape = (SymInt(L), 3)
+
+        def __getitem__(self, k):
+            if not isinstance(k, IArr):
+                raise Unsupported("path indexed by something else than the frame indices")
+            taken.append((self.what, k.elem))
+            return (self.what, k)
+
+    class NPi:
+        @staticmethod
+        def array(x, **kw):
+            if isinstance(x, IArr):
+                return IArr(x.elem)
+            raise Unsupported("np.array of a concrete list in the symbolic run")
+
+        @staticmethod
+        def unique(x):
+            return x  # the same set of indices (sorted, without repetitions)
+
+        def __getattr__(self, nm):
+            raise Unsupported(f"np.{nm}")
+
+    class Obj:
+        pass
+
+    ns = rebind(TU, dict(np=NPi(), isinstance=lambda o, k: (False if isinstance(o, IArr) and k in (int, str) else isinstance(o, k)),
+                         hasattr=lambda o, a: (True if isinstance(o, IArr) and a == "__iter__" else hasattr(o, a))))
+
+    def body():
+        del taken[:]
+        c = Ctx.cur
+        c.pc.extend([L >= 1, i >= 0, n >= 1])
+        o = Obj()
+        o._position, o._orientation = Path("position"), Path("orientation")
+        return ns["get_rot_pos_from_path"](o, IArr(i))
+
+    npth = 0
+    for ctx, (kind, res) in explore(body):
+        npth += 1
+        nm = f"get_rot_pos_from_path[list of frames]@path{npth}.pose-taken-at-min(i,L-1)-for-position-and-orientation"
+        if kind != "ok":
+            st = "unknown" if kind == "unsupported" else "refuted"
+            rep.obligation(nm, {"status": st, "backend": "symex", "time_s": 0, "reason": str(res)[:200]}, fn["function"])
+            if st == "refuted":
+                fails.append(dict(name=nm, why=repr(res)))
+            continue
+        want = z3.If(i >= L, L - 1, i)
+        ok_struct = sorted(w for w, _ in taken) == ["orientation", "position"]
+        goal = z3.And(*[e == want for _, e in taken]) if ok_struct else z3.BoolVal(False)
+        r = solve.discharge(ctx.pc, goal)
+        rep.obligation(nm, r, fn["function"], sample=solve.sample_smt2(ctx.pc, goal) if npth == 1 else None)
+        if r["status"] == "refuted":
+            fails.append(dict(name=nm, why="a frame index beyond the end of the path is not shown at the last pose (or position and orientation are taken at different indices)"))
+    if npth == 0:
+        raise RuntimeError("vacuity: get_rot_pos_from_path has no path")
+    return fails
+
+
 def on_surface(cname, obj, loc, tol):
     """is the local point on the analytic surface of the object (within tol)?"""
     x, y, z = loc
@@ -380,7 +490,7 @@ def main(tier, seed):
                        "of style_temp_edit. BOUNDED: drawn plotly/generic models of 9 classes x units x path lengths x collection nesting against the analytic shapes.")
     rep.assume("pyvista back end not examined; matplotlib only for the colour-slab geometry of magnets; everything else through the generic traces of the plotly back end")
     rep.assume("trace generation (make_Cuboid ... make_Sensor, get_frames) is reflection- and dictionary-heavy presentation code: bounded stand-in only")
-    fails = place_orient_obligations(rep) + style_temp_obligations(rep)
+    fails = place_orient_obligations(rep) + style_temp_obligations(rep) + frame_index_obligations(rep)
     n, bad = native_show(seed, tier)
     rep.standin("drawn vertices on the analytic surface at a displayed path index and spanning the extent; current lines through conductor points; path line through path "
                 "positions; announced unit; show() leaves objects, styles and defaults untouched", "9 classes x {m, mm} x path length {1,3} x {bare, inside a Collection}",
